@@ -33,6 +33,8 @@ def execute(case, prefix, seed):
     ch = grid.Chooser(prefix)
     g = grid.Grid(S, nclients=3, chooser=ch, split=True, client_kw=dict(k=k, n=n, happy=1))
     g.sched.batch = bool(case.get("batch"))     # turn granularity, see grid.Sched.batch
+    if case.get("cpu"):
+        g.sched.cpu_events()     # thread-pool work completes as a scheduled event, see grid.Sched.cpu_events
     viol, obs = [], {}
     try:
         old = pattern(9, 20)
@@ -167,6 +169,8 @@ def run(tier, seed):
     res = grid.split_tasks(common.pmap, chunk, cases, (seed,), d, 0)
     # the same with several events per reactor turn (grid.Sched.batch), one deviation less
     res.merge(grid.split_tasks(common.pmap, chunk, [dict(c, batch=True) for c in cases], (seed,), d - 1, 0))
+    # encryption / hashing in the thread pool complete as scheduled events the other writer's calls can overtake
+    res.merge(grid.split_tasks(common.pmap, chunk, [dict(c, cpu=True) for c in cases], (seed,), d - 1, 0))
     cov = {
         "states": res.counts.get("executions", 0),
         "transitions": res.counts.get("transitions", 0),
@@ -175,7 +179,7 @@ def run(tier, seed):
         "deviation_bound_completed": d,
         "distinct_outcomes": len(res.distinct),
         "outcomes": {k[8:]: v for k, v in res.counts.items() if k.startswith("outcome:")},
-        "rule": "2 writers x %d (format,k,N,S) configurations; every interleaving of execute/response events with <= %d deviations from the canonical order, and with <= %d when several events share a reactor turn" % (len(cases), d, d - 1),
+        "rule": "2 writers x %d (format,k,N,S) configurations; every interleaving of execute/response events with <= %d deviations from the canonical order, and with <= %d when several events share a reactor turn or thread-pool completions are scheduled events" % (len(cases), d, d - 1),
     }
     return res, cov
 
